@@ -1195,7 +1195,7 @@ fn main() {
         cx.rep.note("replay: C55 cases are rebuilt from the seed (they need a git repository), re-running corpus + seed");
     }
     corpus(&mut cx);
-    let trees = args.budget(24, 300);
+    let trees = args.budget(24, 120);
     for t in 0..trees {
         let mut budget = 4 + r.usize(24);
         let mut big_left = 2;
